@@ -64,8 +64,32 @@ def isPoison : QQ → Bool
   | poison => true
   | _ => false
 
+def hexDigit (d : Nat) : Char :=
+  if d < 10 then Char.ofNat (48 + d) else Char.ofNat (87 + d)
+
+/-- exactly `digits` lower-case hex characters of `n < 16^digits` (zero padded), divide and conquer so that
+    10⁵-digit numbers print in `n log n` instead of the quadratic time of `Nat.repr` -/
+def hexPad (n : Nat) (digits : Nat) : String :=
+  if h : digits ≤ 16 then
+    String.ofList ((List.range digits).map fun k => hexDigit ((n >>> (4 * (digits - 1 - k))) % 16))
+  else
+    let lo := digits / 2
+    let hi := digits - lo
+    hexPad (n >>> (4 * lo)) hi ++ hexPad (n % (2 ^ (4 * lo))) lo
+termination_by digits
+decreasing_by all_goals omega
+
+def natToHex (n : Nat) : String :=
+  if n = 0 then "0" else
+  let digits := Nat.log2 n / 4 + 1
+  hexPad n digits
+
+def intToHex (i : Int) : String :=
+  if i < 0 then "-" ++ natToHex i.natAbs else natToHex i.natAbs
+
+/-- rationals are printed in hexadecimal (`-1a/3f`), the format of `mpz_get_str(…, 16, …)` on the C++ side -/
 def ratToString (r : Rat) : String :=
-  if r.den = 1 then toString r.num else toString r.num ++ "/" ++ toString r.den
+  if r.den = 1 then intToHex r.num else intToHex r.num ++ "/" ++ natToHex r.den
 
 def toStr : QQ → String
   | fin r => ratToString r
@@ -91,6 +115,19 @@ def parse? (s : String) : Option QQ :=
         if d = 0 then none else some (fin ((i : Rat) / (d : Rat)))
     | _ => none
 
+/-- floor square root by Newton iteration from above, started at a power of two `≥ √n`
+    (core `Nat.sqrt` starts at `n/2` and needs `log n` steps, which is too slow for 10⁵-digit arguments).
+    Fuel `log2 n + 2` is more than the quadratic convergence needs. -/
+def isqrt (n : Nat) : Nat :=
+  if n ≤ 1 then n else
+  let rec go (fuel g : Nat) : Nat :=
+    match fuel with
+    | 0 => g
+    | fuel + 1 =>
+      let next := (g + n / g) / 2
+      if next < g then go fuel next else g
+  go (Nat.log2 n + 2) (2 ^ (Nat.log2 n / 2 + 1))
+
 /-- The shared rational square root.  Mode `k ≥ 0`: `⌊√(a·b·4ᵏ)⌋ / (b·2ᵏ)` for `a/b ≥ 0`
     (so the result is within `2⁻ᵏ/b`-ish of the true root and exact on perfect squares of dyadics
     when `k` is large enough).  Negative argument, infinities and poison give poison. -/
@@ -100,7 +137,7 @@ def sqrtK (k : Nat) : QQ → QQ
     else
       let a : Nat := r.num.toNat
       let b : Nat := r.den
-      fin ((Nat.sqrt (a * b * 4 ^ k) : Rat) / ((b * 2 ^ k : Nat) : Rat))
+      fin ((isqrt (a * b * 4 ^ k) : Rat) / ((b * 2 ^ k : Nat) : Rat))
   | _ => poison
 
 /-- power-of-two mode: `2^e` with `e` the largest integer such that `4^e ≤ x`; `sqrt 0 = 0`. -/
